@@ -39,11 +39,12 @@ def _verify_one(args):
         contract = reg.units[idx]
         from . import values as _values
         import itertools as _it
-        _values._counter = _it.count(100000)
+        # VERIF_SEED perturbs the fresh-name numbering (and hence solver heuristics): verdicts must not depend on it
+        _values._counter = _it.count(100000 + 1000 * (int(os.environ.get("VERIF_SEED", "0") or 0) % 50))
         res, ex = verify.verify_unit(reg, contract, tier)
         out = {"unit": res.name, "addr": res.addr, "status": res.status, "message": res.message, "notes": res.notes,
                "obligations": [], "covers": [], "exec_time": res.time, "digest": res.source_digest,
-               "props": contract.props}
+               "props": contract.props, "raises_only": contract.raises_only}
         if res.status == "ok":
             for name, pc in res.covers:
                 out["covers"].append((name, verify.check_cover(pc)))
